@@ -916,7 +916,10 @@ def i_SHR(i, fmap):
     a = fmap(op1)
     if count._is_cst:
         if count.value == 0:
-            return  # flags unchanged
+            if op1.size == 32 and op1._is_reg:
+                # flags unchanged but a 32-bit result still clears the upper half
+                fmap[op1.x] = a.zeroextend(64)
+            return
         if count.value == 1:
             fmap[of] = a.bit(-1)  # MSB of a
         else:
@@ -948,6 +951,9 @@ def i_SAR(i, fmap):
     a = fmap(op1)
     if count._is_cst:
         if count.value == 0:
+            if op1.size == 32 and op1._is_reg:
+                # flags unchanged but a 32-bit result still clears the upper half
+                fmap[op1.x] = a.zeroextend(64)
             return
         if count.value == 1:
             fmap[of] = bit0
@@ -981,15 +987,18 @@ def i_SHL(i, fmap):
     x = a << count
     if count._is_cst:
         if count.value == 0:
+            if op1.size == 32 and op1._is_reg:
+                # flags unchanged but a 32-bit result still clears the upper half
+                fmap[op1.x] = a.zeroextend(64)
             return
-        if count.value == 1:
-            fmap[of] = x.bit(-1) ^ fmap(cf)
-        else:
-            fmap[of] = top(1)
         if count.value <= a.size:
             fmap[cf] = a.bit(a.size - count.value)
         else:
             fmap[cf] = bit0
+        if count.value == 1:
+            fmap[of] = x.bit(-1) ^ fmap(cf)
+        else:
+            fmap[of] = top(1)
     else:
         fmap[cf] = top(1)
         fmap[of] = top(1)
@@ -1018,6 +1027,9 @@ def i_ROL(i, fmap):
     x = ROL(a, count)
     if count._is_cst:
         if mcount.value == 0:
+            if op1.size == 32 and op1._is_reg:
+                # flags unchanged but a 32-bit result still clears the upper half
+                fmap[op1.x] = a.zeroextend(64)
             return
         fmap[cf] = x.bit(0)
         if mcount.value == 1:
@@ -1046,6 +1058,9 @@ def i_ROR(i, fmap):
     x = ROR(a, count)
     if count._is_cst:
         if mcount.value == 0:
+            if op1.size == 32 and op1._is_reg:
+                # flags unchanged but a 32-bit result still clears the upper half
+                fmap[op1.x] = a.zeroextend(64)
             return
         fmap[cf] = x.bit(-1)
         if mcount.value == 1:
@@ -1075,6 +1090,9 @@ def i_RCL(i, fmap):
     x, carry = ROLWithCarry(a, count, fmap(cf))
     if count._is_cst:
         if count.value == 0:
+            if op1.size == 32 and op1._is_reg:
+                # flags unchanged but a 32-bit result still clears the upper half
+                fmap[op1.x] = a.zeroextend(64)
             return
         fmap[cf] = carry
         if count.value == 1:
@@ -1104,6 +1122,9 @@ def i_RCR(i, fmap):
     x, carry = RORWithCarry(a, count, fmap(cf))
     if count._is_cst:
         if count.value == 0:
+            if op1.size == 32 and op1._is_reg:
+                # flags unchanged but a 32-bit result still clears the upper half
+                fmap[op1.x] = a.zeroextend(64)
             return
         if count.value == 1:
             fmap[of] = a.bit(-1) ^ fmap(cf)
